@@ -275,6 +275,14 @@ function makeEnv(freeNames, seed, k, nobig) {
   return { seed: (seed ^ (k * 0x9E3779B1)) >>> 0, bindings, budget: 3000, nobig: !!nobig };
 }
 
+let PROGRESS = null, CURRENT = '';
+function tick() { if (PROGRESS) { try { fs.writeFileSync(PROGRESS, CURRENT); } catch (e) { } } }
+
+// A vm timeout starts a watchdog thread per call (~1.5 ms), so straight-line programs run without one.  Everything that can
+// run unboundedly needs it: loops, but also any callable code (recursion inside try/catch takes exponential time:
+// function f(){try{f()}catch(e){f()}}) and asynchronous chains (async function f(){await 0;f()} never drains the microtasks).
+function needsTimeout(src) { return /\b(for|while|do|function|class|try|async|await|yield|Promise|get|set)\b|=>/.test(src); }
+
 function isTimeout(e) { return e && e.code === 'ERR_SCRIPT_EXECUTION_TIMEOUT'; }
 
 // one execution: returns {obs: {calls, globals, comp}, timeout, syntax, tdz}
@@ -337,9 +345,10 @@ function observePair(c) {
   if (pout && !pout.module) { try { analyze(pout.ast, isStrictProgram(pout.ast)).topLex.forEach((n) => lexSet.add(n)); } catch (e) { } }
   info.topLex = Array.from(lexSet).sort();
   const nenv = c.nenv || 3;
-  const loops = /\b(for|while|do)\b/.test(c.in) || /\b(for|while|do)\b/.test(c.out);
+  const loops = needsTimeout(c.in) || needsTimeout(c.out);
   const T = (x) => loops ? x : 0;
   for (let k = 0; k < nenv; k++) {
+    tick();
     const env = makeEnv(freeNames, c.seed >>> 0, k, c.nobig);
     let probe = c.probe ? 1 : 0;
     let a = execute(c.in, env, info.topLex, probe, T(T_IN));
@@ -374,6 +383,10 @@ function main() {
   let astmod = null;
   for (const l of lines) {
     const c = JSON.parse(l);
+    // progress marker for the parent's watchdog: the pair being worked on (refreshed for every environment, see tick)
+    PROGRESS = outp + '.progress';
+    CURRENT = String(c.id);
+    tick();
     let rs;
     try { rs = observePair(c); } catch (e) { rs = [{ id: c.id, env: -1, skip: 'runner error: ' + (e && e.stack || e) }]; }
     if (c.ast) {
@@ -384,5 +397,5 @@ function main() {
   }
   fs.closeSync(fd);
 }
-module.exports = { analyze, parseProgram, observePair, execute, makeEnv, BUILTINS, mulberry32, hashStr };
+module.exports = { analyze, parseProgram, observePair, execute, makeEnv, BUILTINS, mulberry32, hashStr, tick, needsTimeout };
 if (require.main === module) main();
